@@ -57,7 +57,13 @@ func (f *rnsFam) Setup(cfg M, rng *rand.Rand) {
 	f.c = chain.New()
 	for _, l := range f.accts {
 		a := f.c.Acct(l)
-		f.c.Fund(f.c.Ctx, a.Addr, sdk.NewCoins(sdk.NewInt64Coin("ujkl", f.fund), sdk.NewInt64Coin("uusd", f.fund)))
+		fund := f.fund
+		if l == f.accts[len(f.accts)-1] && len(f.accts) > 2 {
+			// the last account is poor: it can bid small amounts but cannot afford any registration (the cheapest costs 10M),
+			// while the others' bids can put more than that into the escrow
+			fund = 8_000_000
+		}
+		f.c.Fund(f.c.Ctx, a.Addr, sdk.NewCoins(sdk.NewInt64Coin("ujkl", fund), sdk.NewInt64Coin("uusd", f.fund)))
 	}
 	f.base = f.c.Ctx
 }
@@ -294,7 +300,7 @@ func (f *rnsFam) Random(rng *rand.Rand) M {
 		if rng.Intn(4) == 0 {
 			d = "uusd"
 		}
-		return M{"d": d, "amt": int64([]int{1, 7, 500, 777, 1000000}[rng.Intn(5)])}
+		return M{"d": d, "amt": int64([]int{1, 7, 500, 777, 1000000, 30000000}[rng.Intn(6)])}
 	}
 	k := f.c.App.RnsKeeper
 	all := k.GetAllNames(f.ctx)
